@@ -465,15 +465,19 @@ func (e *MetaCDC) Create(req *request.CreateRequest) (resp *request.CreateRespon
 		}
 	}
 
+	ctx := context.Background()
 	// once the task record has been stored, giving the names back is the job of the delete method
 	taskStored := false
+	positionStored := false
 	defer func() {
 		if err != nil && !taskStored {
 			revertCollectionNames()
+			if positionStored {
+				_ = store.DeleteTaskCollectionPosition(e.metaStoreFactory.GetTaskCollectionPositionMetaStore(ctx), taskID, 0)
+			}
 		}
 	}()
 
-	ctx := context.Background()
 	getResp, err := e.metaStoreFactory.GetTaskInfoMetaStore(ctx).Get(ctx, &meta.TaskInfo{}, nil)
 	if err != nil {
 		return nil, servererror.NewServerError(errors.WithMessage(err, "fail to get task list to check num"))
@@ -497,6 +501,8 @@ func (e *MetaCDC) Create(req *request.CreateRequest) (resp *request.CreateRespon
 		DisableAutoStart:      req.DisableAutoStart,
 	}
 
+	// decode every position of the request before anything is written, so that an invalid request leaves no record
+	var metaPositions []*meta.TaskCollectionPosition
 	handleCollectionPositions := func(collectionInfos []model.CollectionInfo) error {
 		for _, collectionInfo := range collectionInfos {
 			positions := make(map[string]*meta.PositionInfo, len(collectionInfo.Positions))
@@ -536,10 +542,7 @@ func (e *MetaCDC) Create(req *request.CreateRequest) (resp *request.CreateRespon
 				CollectionName: collectionName,
 				Positions:      positions,
 			}
-			err = e.metaStoreFactory.GetTaskCollectionPositionMetaStore(ctx).Put(ctx, metaPosition, nil)
-			if err != nil {
-				return servererror.NewServerError(errors.WithMessage(err, "fail to put the task collection position to etcd"))
-			}
+			metaPositions = append(metaPositions, metaPosition)
 
 			collectionInfo.Positions = make(map[string]string)
 		}
@@ -578,11 +581,15 @@ func (e *MetaCDC) Create(req *request.CreateRequest) (resp *request.CreateRespon
 				},
 			},
 		}
+		metaPositions = append(metaPositions, metaPosition)
+		req.RPCChannelInfo.Position = ""
+	}
+	for _, metaPosition := range metaPositions {
+		positionStored = true
 		err = e.metaStoreFactory.GetTaskCollectionPositionMetaStore(ctx).Put(ctx, metaPosition, nil)
 		if err != nil {
-			return nil, servererror.NewServerError(errors.WithMessage(err, "fail to put the task rpc position to etcd"))
+			return nil, servererror.NewServerError(errors.WithMessage(err, "fail to put the task position to etcd"))
 		}
-		req.RPCChannelInfo.Position = ""
 	}
 
 	err = e.metaStoreFactory.GetTaskInfoMetaStore(ctx).Put(ctx, info, nil)
